@@ -31,6 +31,9 @@ EXTRAS = [{}, {"indexes": [{"cols": [{"n": "b"}, {"n": "c"}], "primary": True}]}
           {"indexes": [{"cols": [{"n": "b", "o": "Desc"}, {"n": "c", "o": "Asc"}], "unique": True}]},
           {"indexes": [{"name": "pk_bc", "cols": [{"n": "c", "o": "Desc"}, {"n": "b"}], "primary": True}]},
           {"indexes": [{"name": "uq_p", "cols": [{"n": "c", "p": 8}, {"n": "b", "o": "Desc"}], "unique": True}]},
+          # a predicate on an in-table key: no dialect has partial table constraints (MySQL and PostgreSQL leave it out)
+          {"indexes": [{"name": "uq_w", "cols": [{"n": "b"}], "unique": True, "include": ["c"],
+                        "where": {"k": "bin", "op": "GreaterThan", "l": {"k": "col", "n": "b"}, "r": {"k": "val", "v": V("Int", "5")}}, "where_cols": ["b"]}]},
           {"indexes": [{"cols": [{"n": "c", "p": 4, "o": "Desc"}], "primary": True}]}]
 COLX = {"name": "x", "type": T("Integer"), "specs": []}
 FOLLOW = [None,
